@@ -334,10 +334,10 @@ func genC05Constructed(t *rapid.T) c05Case {
 	pieces := renderScript(sc, &lay)
 	c := c05Case{Pieces: pieces, Seed: "s1", Kind: "generated", Expect: "accept"}
 	if rapid.Bool().Draw(t, "break") {
-		// re-indent one statement line of one node body with a mixture of tabs and blanks
+		// one edit that makes the script invalid under any reading of the syntax
 		pi := rapid.IntRange(0, len(pieces)-1).Draw(t, "piece")
 		lines := strings.SplitAfter(pieces[pi], "\n")
-		var candidates []int
+		var body, endifs, commands, braces, ends []int
 		inBody := false
 		for i, l := range lines {
 			trimmed := strings.TrimSpace(l)
@@ -346,18 +346,68 @@ func genC05Constructed(t *rapid.T) c05Case {
 				inBody = true
 			case trimmed == "===":
 				inBody = false
+				ends = append(ends, i)
 			case inBody && trimmed != "" && !strings.HasPrefix(trimmed, "//"):
-				candidates = append(candidates, i)
+				body = append(body, i)
+				withoutComment := trimmed
+				if j := strings.Index(withoutComment, "//"); j >= 0 {
+					withoutComment = strings.TrimSpace(withoutComment[:j])
+				}
+				if strings.HasPrefix(trimmed, "<<") && strings.Contains(trimmed, "endif") {
+					endifs = append(endifs, i)
+				}
+				if strings.HasPrefix(trimmed, "<<") && strings.HasSuffix(withoutComment, ">>") {
+					commands = append(commands, i)
+				}
+				if strings.Contains(trimmed, "{") && !strings.HasPrefix(trimmed, "<<") && !strings.Contains(trimmed, "//") {
+					braces = append(braces, i)
+				}
 			}
 		}
-		if len(candidates) == 0 {
+		pick := func(xs []int, label string) int { return xs[rapid.IntRange(0, len(xs)-1).Draw(t, label)] }
+		edit := rapid.SampledFrom([]string{"mixed-indentation", "mixed-indentation", "drop-endif", "extra-endif", "unclosed-if", "drop-command-end", "drop-closing-brace", "drop-node-end", "stray-else"}).Draw(t, "edit")
+		done := false
+		switch {
+		case edit == "mixed-indentation" && len(body) > 0:
+			i := pick(body, "line")
+			lines[i] = rapid.SampledFrom(mixedPrefixes).Draw(t, "prefix") + strings.TrimLeft(lines[i], " \t")
+			done = true
+		case edit == "drop-endif" && len(endifs) > 0:
+			lines[pick(endifs, "line")] = ""
+			done = true
+		case edit == "extra-endif" && len(body) > 0:
+			i := pick(body, "line")
+			lines[i] = "<<endif>>\n" + lines[i]
+			done = true
+		case edit == "stray-else" && len(body) > 0 && len(endifs) == 0:
+			i := pick(body, "line")
+			lines[i] = "<<else>>\n" + lines[i]
+			done = true
+		case edit == "unclosed-if" && len(ends) > 0:
+			i := pick(ends, "line")
+			lines[i] = "<<if true>>\nnever closed\n" + lines[i]
+			done = true
+		case edit == "drop-command-end" && len(commands) > 0:
+			i := pick(commands, "line")
+			if j := strings.LastIndex(lines[i], ">>"); j >= 0 {
+				lines[i] = lines[i][:j] + lines[i][j+2:]
+				done = true
+			}
+		case edit == "drop-closing-brace" && len(braces) > 0:
+			i := pick(braces, "line")
+			if j := strings.LastIndex(lines[i], "}"); j >= 0 {
+				lines[i] = lines[i][:j] + lines[i][j+1:]
+				done = true
+			}
+		case edit == "drop-node-end" && len(ends) > 0:
+			lines[ends[len(ends)-1]] = ""
+			done = true
+		}
+		if !done {
 			return c
 		}
-		i := candidates[rapid.IntRange(0, len(candidates)-1).Draw(t, "line")]
-		prefix := rapid.SampledFrom(mixedPrefixes).Draw(t, "prefix")
-		lines[i] = prefix + strings.TrimLeft(lines[i], " \t")
 		pieces[pi] = strings.Join(lines, "")
-		c.Kind, c.Expect = "generated + one line indented with tabs and blanks", "reject"
+		c.Kind, c.Expect = "generated + "+edit, "reject"
 	}
 	return c
 }
